@@ -109,6 +109,10 @@ struct ArgDef {
   bool unsetFlag = false;     // bit kinds: reset instead of set
   std::string pairFormat;     // key-value kinds: "" = default
   std::vector<std::pair<int, int>> constraints;   // (ConstraintType, index of the other argument)
+  // how constraint i is written in the definition (no influence on its meaning): bits 0-1 = how the other argument is named
+  // (0 complete specification, 1 short key only, 2 long key only); bit 2 = appended to the key list of the previous
+  // constraint of the same type ("d;c") instead of being added as a constraint of its own. Empty = all 0.
+  std::vector<int> ctStyle;
   std::string desc;           // description (usage tests)
   std::vector<std::pair<int, int>> posFormats;   // (value position, 1 uppercase / 2 lowercase) - addFormatPos()
   bool inSubGroup = false;    // usage tests: the argument is defined in a sub-group handler reached through "-G,--sub-group"
@@ -614,6 +618,7 @@ inline void writeConfig(verif::Writer &w, const Config &c) {
     for (auto &ct : a.constraints) w.u(ct.first).u(ct.second);
     if (!a.posFormats.empty()) { w.tag("pf").u(a.posFormats.size()); for (auto &pf : a.posFormats) w.u(pf.first).u(pf.second); }
     if (a.inSubGroup) w.tag("sg");
+    { bool any = false; for (int x : a.ctStyle) if (x) any = true; if (any) { w.tag("cs").u(a.ctStyle.size()); for (int x : a.ctStyle) w.u(static_cast<uint64_t>(x)); } }
     w.nl();
   }
   for (auto &h : c.hcs) { w.tag("hc").u(h.type).u(h.args.size()); for (int x : h.args) w.u(x); w.nl(); }
@@ -637,6 +642,7 @@ inline Config readConfig(verif::Reader &r) {
     for (size_t j = 0; j < nct; ++j) { int t = static_cast<int>(r.u()); int o = static_cast<int>(r.u()); a.constraints.push_back({t, o}); }
     if (!r.eof() && r.peek() == "pf") { r.tag(); size_t np = r.u(); for (size_t j = 0; j < np; ++j) { int i = static_cast<int>(r.u()); int f = static_cast<int>(r.u()); a.posFormats.push_back({i, f}); } }
     if (!r.eof() && r.peek() == "sg") { r.tag(); a.inSubGroup = true; }
+    if (!r.eof() && r.peek() == "cs") { r.tag(); size_t ns = r.u(); for (size_t j = 0; j < ns; ++j) a.ctStyle.push_back(static_cast<int>(r.u())); }
     c.args.push_back(a);
   }
   for (size_t i = 0; i < nh; ++i) { HConstraint h; r.tag(); h.type = static_cast<int>(r.u()); size_t n = r.u(); for (size_t j = 0; j < n; ++j) h.args.push_back(static_cast<int>(r.u())); c.hcs.push_back(h); }
